@@ -49,6 +49,9 @@ func lnRoutes() []map[string]any {
 		{"match": []map[string]any{vhm(8, "N", "fall")}, "handle": []map[string]any{{"handler": "verif_h", "k": "term"}}},
 		// consumed by a terminal handler
 		{"match": []map[string]any{vhm(4, "Y", "term")}, "handle": []map[string]any{{"handler": "verif_h", "k": "mark", "l": 1, "r": 2}, {"handler": "verif_h", "k": "term", "l": 1, "r": 2}}},
+		// consumed by a terminal handler that serves until the client hangs up (the client of a "hold" connection does so
+		// only after the listener has been closed)
+		{"match": []map[string]any{vhm(4, "Y", "hold")}, "handle": []map[string]any{{"handler": "verif_h", "k": "mark", "l": 1, "r": 5}, {"handler": "verif_h", "k": "term", "l": 1, "r": 5}}},
 		// a non-terminal handler eats a prefix, then the connection falls through
 		{"match": []map[string]any{vhm(4, "Y", "eatfall")}, "handle": []map[string]any{{"handler": "verif_h", "k": "mark", "l": 1, "r": 3}, {"handler": "verif_h", "k": "eat", "n": eatN}}},
 		// never decided: matching fails when the client's stream ends
@@ -84,12 +87,13 @@ func runListener(sc lnScen, idx int, seed int64) (*lnTrace, error) {
 		client func() // TLS client side, run once the connection was offered
 	}
 	conns := map[string]*connInfo{}
+	var held []*vh.ScriptConn
 	var order []string
 	var tcpLn net.Listener
 	for i, kind := range sc.Mix {
 		id := fmt.Sprintf("k%d", i+1)
 		slen := sc.Slen
-		if (kind == "term" || kind == "eatfall" || kind == "tlsfall") && slen < 16 {
+		if (kind == "term" || kind == "eatfall" || kind == "tlsfall" || kind == "hold") && slen < 16 {
 			slen = 16
 		}
 		rec := vh.NewRecorder(vh.MakeStream(seed*1000+int64(idx*16+i), slen+64))
@@ -137,6 +141,10 @@ func runListener(sc lnScen, idx int, seed int64) (*lnTrace, error) {
 			pulls = []int{3, 1, 2048, 7}
 		}
 		scn := &vh.ScriptConn{Rec: rec, Slen: slen, EndKind: "eof", Pulls: pulls, Start: time.Now(), Unit: time.Hour, Remote: addr}
+		if kind == "hold" {
+			scn.EndKind = "hold"
+			held = append(held, scn)
+		}
 		vh.RegisterRec(addr.String(), rec)
 		defer vh.UnregisterRec(addr.String())
 		conns[addr.String()] = &connInfo{rec: rec, conn: scn, kind: kind, slen: slen}
@@ -262,7 +270,19 @@ func runListener(sc lnScen, idx int, seed int64) (*lnTrace, error) {
 	select {
 	case <-consumerDone:
 	case <-time.After(3 * time.Second):
+		// Accept has not reported closure although the listener was closed 3 s ago (connections may still be served)
 		shared.Add(vh.Ev{"e": "AccHang"})
+	}
+	// now the clients of the held connections hang up
+	for _, c := range held {
+		c.Release()
+	}
+	if len(held) > 0 {
+		select {
+		case <-consumerDone:
+		case <-time.After(3 * time.Second):
+		}
+		settle(500)
 	}
 	cwg.Wait()
 	// connections never accepted by the wrapper's loop belong to nobody
